@@ -86,6 +86,12 @@ func (c *ctx) composerFacts() {
 		})
 	}
 	c.add("Composer", "recoverGuard", "String", optStr(rec), composerGo+":applyJSONPatchOperation", "")
+	// control skeletons of everything an ietf-json-patch operation passes on its way to the library
+	for _, f := range []string{"ApplyPatches", "applyPatch", "applyJSON", "applyJSONPatchOperation", "targetsOwnSource", "stringMember", "isBelow", "applyRecover",
+		"applyAddPublicKeys", "updateKey", "applyRemovePublicKeys", "applyAddServiceEndpoints", "applyRemoveServiceEndpoints", "applyAddAlsoKnownAs", "applyRemoveAlsoKnownAs"} {
+		c.add("Composer", "skel_composer_"+f, "List String", c.skel(composerGo, f), composerGo+":"+f, "control skeleton")
+	}
+	c.add("Composer", "skel_composer_pointerTokenDecoder", "List String", listOrEmpty(c.varSource(composerGo, "pointerTokenDecoder")), composerGo+":pointerTokenDecoder", "replacer")
 
 	// patch.go: PatchesFromDocument
 	pr := &resolver{local: patchC, pkgs: map[string]map[string]string{"document": docC}}
